@@ -166,15 +166,8 @@ func checkConservation(s *gen.Stream, f []byte, add func(clause, known, msg stri
 			plain[t] = true
 		}
 	}
-	for i, l := range s.Lines {
-		if l.Class == gen.Junk && isRaceLook(b[l.Start:l.End]) {
-			t := bytes.TrimRight(b[l.Start:l.End], "\r\n")
-			if string(t) == "==================" {
-				kf1[i] = true
-			} else if i > 0 && s.Lines[i-1].Class == gen.Junk && string(bytes.TrimRight(s.Text(i-1), "\r\n")) == "==================" {
-				kf1[i] = true
-			}
-		}
+	for i := range kf1Tail(s) {
+		kf1[i] = true
 	}
 	align := func(allowKF1 bool) bool {
 		m := len(fl)
@@ -258,7 +251,7 @@ func checkConservation(s *gen.Stream, f []byte, add func(clause, known, msg stri
 		last = first[t]
 	}
 	if known != "" {
-		add("junk-lost", known, "a stray race header line ('==================' not followed by 'WARNING: DATA RACE', or both not followed by an operation) is consumed and never forwarded")
+		add("junk-lost", known, "stray race header lines at the very end of the stream ('==================', optionally followed by 'WARNING: DATA RACE') are held back and never forwarded")
 		return
 	}
 	add("withheld", known, fmt.Sprintf("the output is not the input minus dump lines and at most one blank line after each dump (blank lines or dump-line fragments do not line up); input %d lines, output %d lines; first difference at output offset %d", n, len(fl), FirstDiff(f, b)))
@@ -543,7 +536,7 @@ func init() {
 		Assumptions: []string{"the generators bound what 'every input' means", "writer faults are not injected (no property quantifies over them)", "GuessPaths/AnalyzeSources off at library level"},
 		Real:        real, Stubs: stubs,
 		Probes: func() []*Case {
-			return []*Case{{Prop: "C02", Mode: "loop", NameArgs: true, Doc: &gen.Doc{Items: []gen.Item{{Kind: "junk", Text: "a\n"}, {Kind: "junk", Text: "==================\n"}, {Kind: "junk", Text: "b\n"}}}}}
+			return []*Case{{Prop: "C02", Mode: "loop", NameArgs: true, Doc: &gen.Doc{Items: []gen.Item{{Kind: "junk", Text: "a\n"}, {Kind: "junk", Text: "==================\n"}}}}}
 		},
 	})
 	register(&Spec{
@@ -583,3 +576,22 @@ func dispatchLoop(prop string, c *Case, cov *Cov) []*Violation {
 
 // extraModes lets other engines (clisim, ppdrive) hook their replay.
 var extraModes = map[string]func(c *Case, cov *Cov) []*Violation{}
+
+// kf1Tail returns the indices of the lines KF-1 may still lose: stray race
+// header lines ('==================', optionally followed by 'WARNING: DATA
+// RACE') that are the very last lines of the stream. The scanner holds them
+// back until the next line shows whether a report follows; at end of stream
+// nothing follows and they are dropped (pinned by RaceHdr2Err..RaceHdr4Err).
+func kf1Tail(s *gen.Stream) map[int]bool {
+	out := map[int]bool{}
+	n := len(s.Lines)
+	text := func(i int) string { return string(bytes.TrimRight(s.Text(i), "\r\n")) }
+	isJunk := func(i int) bool { return i >= 0 && i < n && s.Lines[i].Class == gen.Junk }
+	if n >= 1 && isJunk(n-1) && text(n-1) == "==================" && s.Lines[n-1].Term {
+		out[n-1] = true
+	}
+	if n >= 2 && isJunk(n-1) && isJunk(n-2) && text(n-1) == "WARNING: DATA RACE" && text(n-2) == "==================" {
+		out[n-1], out[n-2] = true, true
+	}
+	return out
+}
